@@ -1481,6 +1481,15 @@ def scripts_c04(tier, rng):
         for k, v in g.stats.items():
             stats[k] = stats.get(k, 0) + v
     out += blocked_rotation_scripts(out[: (40 if tier == "quick" else 400)], rng, "c04x")
+    # several megabytes queued behind a parked worker: one batch of large writes
+    for j in range(1 if tier == "quick" else 3):
+        sz = rng.choice([1100000, 900000, 1500000])
+        lines = ["cfg", "open"]
+        for x in range(6):
+            lines += [f"app 1,{x},x{sz}:{x + 1}", f"flush {x + 1}"]
+        lines += ["widle", "stat", "dir"]
+        out.append((f"c04big_{j}", lines))
+    stats["large-pipelined-batch"] = 1 if tier == "quick" else 3
     return out, stats
 
 
